@@ -549,9 +549,59 @@ type StageOpt struct {
 // without parameters, logfmt and line_format run in the in-process engine (C09);
 // label_format is outside the property's grammar.
 func GenStages(rt *rapid.T, db *logdb.DB, o StageOpt) []refeval.Stage {
+	st, _ := GenStagesFlat(rt, db, o)
+	return st
+}
+
+// genFlatChain draws an unparenthesised chain of 3-4 terms with mixed and/or, as the
+// right-nested tree qryn's grammar builds for it. Terms are aimed at the label sets of the
+// database (true for one series, false for another) so that different groupings of the same
+// text give different answers.
+func genFlatChain(rt *rapid.T, db *logdb.DB, d dbStrings, extracted []string) *refeval.LabelFilter {
+	n := rapid.IntRange(3, 4).Draw(rt, "chain-n")
+	terms := make([]*refeval.LabelFilter, n)
+	for i := range terms {
+		if len(db.Series) > 0 && rapid.IntRange(0, 9).Draw(rt, "chain-aim") < 8 {
+			s := db.Series[rapid.IntRange(0, len(db.Series)-1).Draw(rt, "chain-s")]
+			l := s.Labels[rapid.IntRange(0, len(s.Labels)-1).Draw(rt, "chain-l")]
+			v := l.Value
+			terms[i] = &refeval.LabelFilter{Label: l.Name, Cmp: rapid.SampledFrom([]string{"=", "=", "!="}).Draw(rt, "chain-op"), Str: &v}
+		} else {
+			terms[i] = genFilterLeaf(rt, d, extracted)
+		}
+	}
+	ops := make([]string, n-1)
+	for i := range ops {
+		ops[i] = rapid.SampledFrom([]string{"and", "or"}).Draw(rt, "chain-bool")
+	}
+	// mixed: at least one of each
+	if n >= 3 {
+		same := true
+		for _, o := range ops[1:] {
+			if o != ops[0] {
+				same = false
+			}
+		}
+		if same {
+			if ops[0] == "and" {
+				ops[len(ops)-1] = "or"
+			} else {
+				ops[len(ops)-1] = "and"
+			}
+		}
+	}
+	f := terms[n-1]
+	for i := n - 2; i >= 0; i-- {
+		f = &refeval.LabelFilter{Bool: ops[i], L: terms[i], R: f}
+	}
+	return f
+}
+
+// GenStagesFlat is GenStages; flat lists the stages whose label filter is to be printed
+// without parentheses (refeval.FlatFilterString).
+func GenStagesFlat(rt *rapid.T, db *logdb.DB, o StageOpt) (st []refeval.Stage, flat []int) {
 	d := collect(db)
 	n := rapid.IntRange(0, o.Max).Draw(rt, "nstages")
-	var st []refeval.Stage
 	var extracted []string
 	nLine := 0
 	for i := 0; i < n; i++ {
@@ -561,6 +611,10 @@ func GenStages(rt *rapid.T, db *logdb.DB, o StageOpt) []refeval.Stage {
 			nLine++
 		case k <= 6:
 			f := genFilterTree(rt, d, extracted, 0)
+			if rapid.IntRange(0, 9).Draw(rt, "flat-chain") < 4 {
+				f = genFlatChain(rt, db, d, extracted)
+				flat = append(flat, len(st))
+			}
 			st = append(st, refeval.Stage{Kind: refeval.KLabelFilter, Filter: f})
 			if i+1 < n && Chance(rt, "rewrite-after-filter", 25) {
 				// a later stage that changes the very label the filter read: stage order matters
@@ -644,7 +698,7 @@ func GenStages(rt *rapid.T, db *logdb.DB, o StageOpt) []refeval.Stage {
 		}
 		st = append(st, refeval.Stage{Kind: refeval.KUnwrap, Label: rapid.SampledFrom(cands).Draw(rt, "unwrap")})
 	}
-	return st
+	return st, flat
 }
 
 // GenShapedStages draws a pipeline of 4-6 stages in which a label filter on L is separated by
@@ -749,6 +803,77 @@ func GenShapedStages(rt *rapid.T, db *logdb.DB) ([]refeval.Stage, string) {
 		st = append(st, filterOn(L))
 	}
 	return st, kind + "/" + sepKind + "/" + rw
+}
+
+// GenAbsentLabelFilter draws the class "label FILTER on a label some selected streams lack":
+// a selector on a label nearly every stream carries (positive, so no stream is selected by
+// the absence of a label), and a filter on a sparse label that is satisfied by the empty
+// string (a pattern matching "", a negative comparison, = "") or is not, placed before any
+// parser stage (answered from the stored labels document) or after one (answered from the
+// labels map). Absent label = empty string for a filter stage in LogQL and, consistently,
+// in qryn; only stream-SELECTOR matchers have index semantics.
+func GenAbsentLabelFilter(rt *rapid.T, db *logdb.DB) []refeval.Stage {
+	d := collect(db)
+	// a label carried by some series but not all, if there is one
+	count := map[string]int{}
+	for _, s := range db.Series {
+		for _, l := range s.Labels {
+			count[l.Name]++
+		}
+	}
+	var sparse []string
+	for _, nme := range d.names {
+		if count[nme] < len(db.Series) {
+			sparse = append(sparse, nme)
+		}
+	}
+	if len(sparse) == 0 {
+		sparse = []string{"lvl", "job", "nolbl"}
+	}
+	L := rapid.SampledFrom(sparse).Draw(rt, "ab-L")
+	pool := d.values[L]
+	if len(pool) == 0 {
+		pool = []string{"x"}
+	}
+	v := rapid.SampledFrom(pool).Draw(rt, "ab-v")
+	var f refeval.LabelFilter
+	f.Label = L
+	var val string
+	switch rapid.IntRange(0, 8).Draw(rt, "ab-k") {
+	case 0, 1:
+		f.Cmp, val = "=~", ".*"
+	case 2:
+		f.Cmp, val = "=~", "("+regexp.QuoteMeta(v)+"|zz)?"
+	case 3:
+		f.Cmp, val = "!=", v
+	case 4:
+		f.Cmp, val = "!~", regexp.QuoteMeta(v)
+	case 5:
+		f.Cmp, val = "=", ""
+	case 6:
+		f.Cmp, val = "=~", "^$"
+	case 7:
+		f.Cmp, val = "=~", regexp.QuoteMeta(v)+".*"
+	default:
+		f.Cmp, val = "=~", "^("+regexp.QuoteMeta(v)+")?$"
+	}
+	f.Str = &val
+	filter := refeval.Stage{Kind: refeval.KLabelFilter, Filter: &f}
+	var st []refeval.Stage
+	switch rapid.IntRange(0, 4).Draw(rt, "ab-pos") {
+	case 0, 1: // first stage: answered from time_series.labels
+		st = append(st, filter)
+	case 2: // after a line filter, still before any parser
+		st = append(st, genLineFilter(rt, d), filter)
+	case 3: // after a parser stage
+		st = append(st, refeval.Stage{Kind: refeval.KJSON, Params: []refeval.Param{{Name: "w", Val: "a"}}}, filter)
+	default:
+		st = append(st, refeval.Stage{Kind: refeval.KRegexp, Val: `lvl=(?P<xl>[0-9]+)`}, filter)
+	}
+	if rapid.Bool().Draw(rt, "ab-tail") {
+		st = append(st, genLineFilter(rt, d))
+	}
+	return st
 }
 
 // ---- regions -----------------------------------------------------------------------------------
